@@ -85,8 +85,10 @@ where
             }
         }
         let mut ds: Vec<DM<R::Ref>> = (0..len).map(|i| DM::zero(ranks[i + 1], ranks[i])).collect();
+        let mut is_src: Vec<Vec<bool>> = ranks.iter().map(|&r| vec![false; r]).collect();
         for (d, s, t, c) in pairs {
             ds[d].set(t, s, c);
+            is_src[d][s] = true;
         }
         // conjugate by sparse unimodular matrices
         let small = |rng: &mut Rng| -> R::Ref {
@@ -111,9 +113,23 @@ where
             let d = rng.below(len as u64 + 1) as usize;
             if ranks[d] == 0 { continue; }
             let mut es = vec![];
-            for k in 0..ranks[d] {
-                if rng.chance(1, 3) {
-                    es.push(json!([k, R::gen(rng, 1)]));
+            if rng.chance(1, 2) {
+                // a planted cycle (a combination of basis vectors on which the planted differential
+                // vanishes, carried to the conjugated basis): classes that are zero, torsion or free
+                let mut z = DM::<R::Ref>::zero(ranks[d], 1);
+                for k in 0..ranks[d] {
+                    if !is_src[d][k] && rng.chance(1, 3) { z.set(k, 0, small(rng)); }
+                }
+                let z = ps[d].0.mul(&z);
+                if !max_abs_ok::<R>(&z) { continue; }
+                for k in 0..ranks[d] {
+                    if !z.get(k, 0).is_zero() { es.push(json!([k, R::ref_to_json(z.get(k, 0))])); }
+                }
+            } else {
+                for k in 0..ranks[d] {
+                    if rng.chance(1, 3) {
+                        es.push(json!([k, R::gen(rng, 1)]));
+                    }
                 }
             }
             vecs.push(json!([d, es]));
@@ -332,6 +348,7 @@ where
     let ranks: Vec<usize> = d.iter().map(|m| m.cols).collect();
     let rranks: Vec<usize> = dr.iter().map(|m| m.cols).collect();
     let fail = |class: &str, msg: String| Some(Violation::new(class, msg));
+    let (n_cyc, n_cyc_nz) = (std::cell::Cell::new(0u64), std::cell::Cell::new(0u64));
     rep.violation = (|| {
         // shapes chain up
         for i in 0..len {
@@ -372,6 +389,31 @@ where
                 // no transfer map to compare with: the image of a cycle under a chain map is still a cycle
                 return fail("tracked-vector-wrong", format!("tracked vector {k} was a cycle, its image is not (no transfer maps kept)"));
             }
+            // a tracked cycle z goes to a cycle z' whose class corresponds to [z] under the induced
+            // isomorphism, so H_deg / <[z]> and H'_deg / <[z']> have the same isomorphism type
+            // (decided with or without transfer maps: the quotient is the homology of the complex with
+            // the incoming differential extended by the column z)
+            let is_cycle = *deg >= len || d[*deg].mul(&vd).is_zero();
+            let is_cycle_r = *deg >= len || dr[*deg].mul(&got).is_zero();
+            if is_cycle && is_cycle_r {
+                let aug = |din: Option<&DM<R::Ref>>, z: &DM<R::Ref>| -> DM<R::Ref> {
+                    let c0 = din.map(|m| m.cols).unwrap_or(0);
+                    let mut a = DM::<R::Ref>::zero(z.rows, c0 + 1);
+                    if let Some(m) = din { for i in 0..m.rows { for j in 0..m.cols { if !m.get(i, j).is_zero() { a.set(i, j, m.get(i, j).clone()); } } } }
+                    for i in 0..z.rows { if !z.get(i, 0).is_zero() { a.set(i, c0, z.get(i, 0).clone()); } }
+                    a
+                };
+                let din = if *deg > 0 { Some(&d[*deg - 1]) } else { None };
+                let dinr = if *deg > 0 { Some(&dr[*deg - 1]) } else { None };
+                let q0 = <R::Ref as HomologyOf>::homology(ranks[*deg], Some(&aug(din, &vd)), if *deg < len { Some(&d[*deg]) } else { None });
+                let q1 = <R::Ref as HomologyOf>::homology(rranks[*deg], Some(&aug(dinr, &got)), if *deg < len { Some(&dr[*deg]) } else { None });
+                n_cyc.set(n_cyc.get() + 1);
+                // probe: the class is non-zero (the quotient differs from the homology itself)
+                if q0 != <R::Ref as HomologyOf>::homology(ranks[*deg], din, if *deg < len { Some(&d[*deg]) } else { None }) { n_cyc_nz.set(n_cyc_nz.get() + 1); }
+                if q0 != q1 {
+                    return fail("tracked-class-wrong", format!("tracked cycle {k} in degree {deg}: H/<[z]> is {:?} before and {:?} after the reduction", q0.iter().map(|x| x.describe()).collect::<Vec<_>>(), q1.iter().map(|x| x.describe()).collect::<Vec<_>>()));
+                }
+            }
         }
         // same homology
         let h0 = complex_homology(&d[..len], &ranks);
@@ -382,6 +424,8 @@ where
         }
         None
     })();
+    rep.counters.insert("tracked_cycles_class_checked".into(), n_cyc.get());
+    rep.counters.insert("tracked_cycles_with_nonzero_class".into(), n_cyc_nz.get());
     rep
 }
 
